@@ -50,7 +50,7 @@ class Ctx:
         return self.config != "alloc"
 
     def eval(self, body, **policy):
-        key = (body.path, tuple(sorted((k, tuple(v) if isinstance(v, (list, tuple)) else v) for k, v in policy.items())))
+        key = (body.path, repr(sorted(policy.items())))
         r = self._cache.get(key)
         if r is None:
             ev = Evaluator(self.facts, **policy)
